@@ -901,7 +901,8 @@ func TestVerifC16Arb(t *testing.T) {
 		"arbitrator's next job List (op roundx, 1/2) or after the round (op upd). Handler stream (120 / 1500 extra cases): 5-8 Ready pods of one workload (20 or 40 replicas) in one " +
 		"namespace on 1-2 nodes, one or two of the global / per-node / per-namespace / per-workload limits set to 1-2 or (1/5) none declared and the args read from a file so that the default per-node limit 2 binds, 3-6 waiting jobs of phase \"\" (3/4) or Pending created up front, " +
 		"then rounds / resyncs / phase moves (\"\" -> Pending -> Running -> terminal) / deletions. Every third case is the headroom stream: one workload of " +
-		"4-8 replicas, small maxUnavailable, 1-3 replicas unavailable in the different ways, waiting jobs on the others. " +
+		"4-8 replicas, small maxUnavailable, 1-3 replicas unavailable in the different ways, waiting jobs on the others; in 1/4 of them exactly one of the two " +
+		"per-workload gates (MaxMigratingPerWorkload / MaxUnavailablePerWorkload) is skipped and the limit of the other one is set to 1-3. " +
 		"Non-trivial = some round both admitted a job and left one waiting")
 }
 
@@ -1072,6 +1073,20 @@ func c16ArbCase(h *vHarness, r *vRand, headroom bool, fx *c16Forced, hs bool) {
 		}
 		if !r.Chance(1, 10) {
 			cfg.skip = nil
+		}
+		if r.Chance(1, 4) {
+			// exactly ONE of the two per-workload gates is skipped and the limit of the OTHER one is the binding limit: the
+			// workload filter must stay in the retryable chain (initFilters drops it only when BOTH gates are skipped)
+			if r.Bool() {
+				cfg.skip = []int{2} // MaxMigratingPerWorkload skipped: the unavailability budget still binds
+				if cfg.muKind == 0 && cfg.mu < 0 {
+					cfg.mu = r.Range(1, 3)
+				}
+			} else {
+				cfg.skip = []int{1} // MaxUnavailablePerWorkload skipped: maxMigrating still binds
+				cfg.mmKind, cfg.mm = 0, r.Range(1, 2)
+			}
+			h.Tag(fmt.Sprintf("stream:one-workload-gate-skipped=%d", cfg.skip[0]))
 		}
 		cfg.skipCER = false
 	}
